@@ -176,6 +176,67 @@ func c17Lookup(c *core.Ctx, k int) {
 				dp.PathString(pth), got, err, payload[strings.Join(tu, "\x00")], tuples[:nPresent])
 		}
 	}
+	// one edit through one list node that appends entries in no particular key order and names one of them twice: every row has to be
+	// found again by its key while the edit runs (the second mention merges) and afterwards
+	if absent := tuples[nPresent:]; len(absent) >= 3 {
+		mk := func(tu []string, pay string) *dp.DNode {
+			e := dp.NewDNode(lst)
+			for j, v := range tu {
+				e.Leaves[lst.Keys[j]] = &dp.LVal{V: []string{v}}
+			}
+			e.Leaves["payload"] = &dp.LVal{V: []string{pay}}
+			return e
+		}
+		holder := dp.NewDNode(nil)
+		hl := &dp.DList{S: lst}
+		holder.Lists["l"] = hl
+		for i, tu := range absent[:3] {
+			hl.Entries = append(hl.Entries, mk(tu, fmt.Sprintf("new-%d", i)))
+		}
+		again := r.Intn(3)
+		hl.Entries = append(hl.Entries, mk(absent[again], "new-again"))
+		c.Eval()
+		var uerr error
+		if !c.Guard("upsert through the list node", func() {
+			lsel, e := b.Root().Find("l")
+			if e != nil || lsel == nil {
+				uerr = fmt.Errorf("list not found: %v", e)
+				return
+			}
+			uerr = lsel.UpsertFrom(dp.NewStore(s, nil).ListAt(holder, "l"))
+		}) {
+			tag := fmt.Sprintf("%s/%s/%s", gm, repr, strings.Join(cfg.types, ","))
+			if uerr != nil {
+				c.Violate("lookup-after-append/error/"+tag, "upsert of %v (entry %d named twice) through the list node failed: %v", absent[:3], again, uerr)
+			} else if snap, e := g.Snapshot(); e != nil {
+				c.Violate("lookup-store-corrupt/"+gm.String(), "%v", e)
+			} else {
+				count := map[string]int{}
+				pay := map[string]string{}
+				if sl := snap.Lists["l"]; sl != nil {
+					for _, e := range sl.Entries {
+						k := strings.Join(e.Key(), "\x00")
+						count[k]++
+						if p := e.Leaves["payload"]; p != nil {
+							pay[k] = p.V[0]
+						}
+					}
+				}
+				for i, tu := range absent[:3] {
+					k := strings.Join(tu, "\x00")
+					wantPay := fmt.Sprintf("new-%d", i)
+					if i == again {
+						wantPay = "new-again"
+					}
+					if count[k] != 1 || pay[k] != wantPay {
+						c.Violate("lookup-after-append/"+tag, "after one upsert of %v with entry %d named twice the list holds %d entries with key %q (payload %q, want one entry with %q)", absent[:3], again, count[k], tu, pay[k], wantPay)
+						break
+					}
+				}
+			}
+		}
+		return
+	}
 	// the Go values are untouched by lookups
 	if snap, err := g.Snapshot(); err != nil {
 		c.Violate("lookup-store-corrupt/"+gm.String(), "%v", err)
